@@ -316,7 +316,7 @@ def handle (line : String) : String :=
           let d1 := if mErr == ecls && toString n == deliv then "" else s!"DIFF reader model={mErr} {n}"
           let octet := bhex mimeOctet ++ "|-/" ++ bhex mimeOctet
           -- specification clauses on the implementation's own result
-          let s1 := if l != 0 && deliv.toNat?.getD 0 > l then "SPEC C05:consumed-more-than-limit" else ""
+          let s1 := if l != 0 && deliv.toNat?.getD 0 > l then "SPEC C05:consumed-more-than-limit ; SPEC C04:bytes-beyond-the-limit-were-examined" else ""
           let hdrLen := if l == 0 then data.length else min l data.length
           let mustFail := match ea with | some e => e < hdrLen | none => false
           let s2 := if mustFail && (ecls != "sentinel" || rres != octet) then "SPEC C05:read-error-not-surfaced" else ""
@@ -481,6 +481,32 @@ def handle (line : String) : String :=
         if !(hasPrefix gotB mime) then "SKIP not-reported-as-html-or-xml" else
         if got == expectStr then "OK" else s!"SPEC C12:declared-charset-not-reported expected={expectStr}"
       | _, _ => "BAD args"
+    | ["hist", items] =>
+      match goRes.splitOn " " with
+      | [pooled, isolated] =>
+        let its := items.splitOn ","
+        let model := its.map fun it =>
+          match it.splitOn ":" with
+          | [q, hx] => match unhex hx with
+            | some raw =>
+              let r := Json.parse (Json.queriesOf q) raw
+              s!"{r.parsed}/{r.inspected}/{r.firstToken}/{r.querySatisfied}"
+            | none => "?"
+          | _ => "?"
+        let d := if String.intercalate "," model == pooled then "" else s!"DIFF jparse-history model={String.intercalate "," model}"
+        let sp := if pooled == isolated then "" else "SPEC C04:parse-result-depends-on-earlier-parses"
+        let all := [d, sp].filter (· != "")
+        if all.isEmpty then "OK" else String.intercalate " ; " all
+      | _ => "SPEC C01:no-result(" ++ goRes ++ ")"
+    | ["dhist", _lim, items] =>
+      let ins := items.splitOn ","
+      let outs := goRes.splitOn ";"
+      if ins.length != outs.length then "SPEC C01:no-result(" ++ goRes ++ ")" else
+      let pairs := ins.zip outs
+      let bad := pairs.any fun p => pairs.any fun q => p.1 == q.1 && p.2 != q.2
+      let modi := outs.any (fun o => o.endsWith "!MODIFIED")
+      if bad then "SPEC C04:same-input-different-result-within-a-sequence"
+      else if modi then "SPEC C04:input-buffer-modified" else "OK"
     | ["treeeq"] =>
       let m := String.intercalate " " (dumpTree Gen.builtin)
       if m == goRes then "OK" else s!"DIFF tree model={m}"
